@@ -70,6 +70,7 @@ func runC15(p *Prog, r *Report) {
 	c.lubBoth()
 	c.closure()
 	c.conformanceVisitsAll()
+	c.singletonDecisions()
 }
 
 func (c *c15ctx) anchors() bool {
@@ -508,6 +509,83 @@ func (c *c15ctx) capabilities() {
 		}
 		r.Check(len(hasCalls) > 0 && guardedErr, rule, "validate."+fnShort(h)+":requires-capability", p.pos(h.Pos()), "the access rule raises its error exactly when the capability is absent",
 			fnShort(h)+" must raise an error when the capability for the accessed optional attribute / tag is absent (capability test present: "+yesNo(len(hasCalls) > 0)+"; error raised on its negative edge: "+yesNo(guardedErr)+")")
+	}
+	// (d) computed capability names: where the attribute part of a capability comes from a function that returns "" as a
+	// sentinel ("not a literal"), the add/has is guarded by a non-emptiness test of that result; otherwise all non-literal
+	// keys share one capability
+	for _, fn := range p.Funcs {
+		if fnPkgPath(fn) != pValidate || fn.Synthetic != "" {
+			continue
+		}
+		for _, cl := range callsIn(fn) {
+			callee := cl.Common().StaticCallee()
+			if callee != add && callee != has {
+				continue
+			}
+			// string-typed call results that flow into the capability argument
+			var computed []ssa.Value
+			seen := map[ssa.Value]bool{}
+			var rec func(v ssa.Value, d int)
+			rec = func(v ssa.Value, d int) {
+				if v == nil || seen[v] || d > 8 {
+					return
+				}
+				seen[v] = true
+				switch x := v.(type) {
+				case *ssa.Call:
+					if g := x.Call.StaticCallee(); g != nil && fnPkgPath(g) == pValidate && basicKind(x.Type()) == types.String && returnsEmptySentinel(g) {
+						computed = append(computed, x)
+					}
+				case *ssa.BinOp:
+					rec(x.X, d+1)
+					rec(x.Y, d+1)
+				case *ssa.Convert:
+					rec(x.X, d+1)
+				case *ssa.ChangeType:
+					rec(x.X, d+1)
+				case *ssa.UnOp:
+					if al, ok := x.X.(*ssa.Alloc); ok {
+						for _, rf := range *al.Referrers() {
+							switch y := rf.(type) {
+							case *ssa.Store:
+								rec(y.Val, d+1)
+							case *ssa.FieldAddr:
+								for _, r2 := range *y.Referrers() {
+									if st, ok := r2.(*ssa.Store); ok {
+										rec(st.Val, d+1)
+									}
+								}
+							}
+						}
+					}
+				case *ssa.Phi:
+					for _, e := range x.Edges {
+						rec(e, d+1)
+					}
+				}
+			}
+			for _, a := range cl.Common().Args[1:] {
+				rec(a, 0)
+			}
+			for _, cv := range computed {
+				guarded := false
+				for _, gd := range guardsAt(cl.Block()) {
+					fg := flattenGuard(gd)
+					if bo, ok := fg.Cond.(*ssa.BinOp); ok {
+						s, isC := constString(bo.Y)
+						if isC && s == "" && stripConv(bo.X) == stripConv(cv) && ((bo.Op == token.NEQ && fg.Pol) || (bo.Op == token.EQL && !fg.Pol)) {
+							guarded = true
+						}
+					}
+				}
+				what := "produced"
+				if callee == has {
+					what = "looked up"
+				}
+				r.Check(guarded, rule, "validate."+fnShort(fn)+":computed-capability-name:"+callee.Name(), p.pos(cl.Pos()), "a capability with a computed name is "+what+" only when the name is not the empty sentinel",
+					"in "+fnShort(fn)+" a capability whose name comes from "+calleeName(cv.(*ssa.Call))+" (which returns \"\" for anything that is not a literal) is "+what+" without testing that result for \"\": every non-literal key shares the capability \"\" — `e.hasTag(context.a) && e.getTag(context.b)` validates and fails at run time when tag b is absent")
+			}
+		}
 	}
 	// (c) intersection: fresh result, elements of one operand tested in the other
 	{
@@ -1227,5 +1305,110 @@ func (c *c15ctx) conformanceVisitsAll() {
 	}
 	if n == 0 {
 		r.Undec(rule, "validate:member-loops", "-", "no member-wise conformance loop was recognised (anchors vanished)")
+	}
+}
+
+// returnsEmptySentinel: a function with a string result that returns the constant "" on some path.
+func returnsEmptySentinel(g *ssa.Function) bool {
+	if g.Blocks == nil {
+		return false
+	}
+	for _, b := range g.Blocks {
+		if ret, ok := lastInstr(b).(*ssa.Return); ok && len(ret.Results) == 1 {
+			if s, ok := constString(ret.Results[0]); ok && s == "" {
+				return true
+			}
+		}
+	}
+	return false
+}
+
+// R15.8: a decision about an entity-type *union* taken from one of its members holds for the union only when the union
+// is a singleton. Wherever a constant-index element of a union's member list feeds a branch condition, a dominating
+// `len(members) == 1` must hold — otherwise `e is T` is typed as always true as soon as T happens to be the first member,
+// and the branch that would be type-checked for the other members is skipped.
+func (c *c15ctx) singletonDecisions() {
+	p, r := c.p, c.r
+	const rule = "R15.8-singleton-decision"
+	n := 0
+	for _, fn := range p.Funcs {
+		if fnPkgPath(fn) != pValidate {
+			continue
+		}
+		forEachInstr(fn, func(in ssa.Instruction) {
+			ia, ok := in.(*ssa.IndexAddr)
+			if !ok {
+				return
+			}
+			if _, isConst := constInt(ia.Index); !isConst {
+				return
+			}
+			fld, _, ok := fieldOfLoad(ia.X)
+			if !ok {
+				// slice obtained through a Field of a struct value
+				if f, ok := ia.X.(*ssa.Field); ok {
+					fld = f.Field
+				} else {
+					return
+				}
+			}
+			sl, isSlice := ia.X.Type().Underlying().(*types.Slice)
+			if !isSlice || namedOf(sl.Elem()) == nil || namedOf(sl.Elem()).Obj().Name() != "EntityType" {
+				return
+			}
+			// does the element feed a branch condition?
+			decides := false
+			if refs := ia.Referrers(); refs != nil {
+				for _, rf := range *refs {
+					if ld, ok := rf.(*ssa.UnOp); ok {
+						if r2 := ld.Referrers(); r2 != nil {
+							for _, u := range *r2 {
+								if bo, ok := u.(*ssa.BinOp); ok && (bo.Op == token.EQL || bo.Op == token.NEQ) {
+									if ifUsing(bo) != nil {
+										decides = true
+									}
+									// or through a && / || phi
+									if r3 := bo.Referrers(); r3 != nil {
+										for _, u3 := range *r3 {
+											if _, isPhi := u3.(*ssa.Phi); isPhi {
+												decides = true
+											}
+										}
+									}
+								}
+							}
+						}
+					}
+				}
+			}
+			if !decides {
+				return
+			}
+			n++
+			singleton := false
+			for _, gd := range guardsAt(ia.Block()) {
+				fg := flattenGuard(gd)
+				bo, ok := fg.Cond.(*ssa.BinOp)
+				if !ok || bo.Op != token.EQL || !fg.Pol {
+					continue
+				}
+				k, isC := constInt(bo.Y)
+				call, isCall := bo.X.(*ssa.Call)
+				if !isC || k != 1 || !isCall || !isBuiltin(call.Common(), "len") {
+					continue
+				}
+				if f2, _, ok := fieldOfLoad(call.Call.Args[0]); ok && f2 == fld {
+					singleton = true
+				}
+				if f2, ok := call.Call.Args[0].(*ssa.Field); ok && f2.Field == fld {
+					singleton = true
+				}
+			}
+			r.Check(singleton, rule, fnQual(fn)+":member@"+itoa(instrIndex(ia))+"b"+itoa(ia.Block().Index), p.pos(ia.Pos()), "a single member decides only for a singleton union",
+				"in "+fnShort(fn)+" a branch is decided by one member of an entity-type union (a constant index into its member list) without a dominating `len(members) == 1`: the conclusion is drawn for the whole union from its first member, so an expression is typed as a constant and the other branch escapes type checking")
+		})
+	}
+	if n == 0 {
+		r.Undec(rule, "validate:union-decisions", "-", "no decision taken from a single union member found (anchor vanished)")
 	}
 }
